@@ -14,6 +14,7 @@ MsgOK(e) ==
     /\ e.reserialiseEqual        \* Bytes() of the parsed message = the original bytes
     /\ e.chunkIndependent        \* every chunking of the reader gives the same result
     /\ e.earlierBytesStable      \* the bytes returned for the previous message are still what they were
+    /\ e.reuseIndependent        \* parsing into a Message value that held another message gives the same as parsing into a new one
 TMsg == IsEvent("Msg") /\ MsgOK(Ev) /\ UNCHANGED dummy /\ Consume
 TraceNext == TMsg
 TraceSpec == TraceInit /\ [][TraceNext]_<<dummy, tvars>>
